@@ -29,6 +29,7 @@ func init() {
 			{"C05-R6", "a forced (warming) response is never lost or narrowed", func(c *Ctx) { alwaysRespondForces(c); c.Floor(4) }},
 			{"C05-R7", "names a reconnecting client retained are recorded for generator-managed types (shared with C03-R5)", c03r5},
 			{"C05-R8", "only an answered first request creates the per-type record", c05r8},
+			{"C05-R9", "the forced EDS push after a delta CDS answer is unconditional (shared with C03)", c05r9},
 		},
 	})
 }
@@ -475,4 +476,37 @@ func c05r8(c *Ctx) {
 	}
 	c.Check("NACK update callbacks found", token.NoPos, n >= 2, "fewer update callbacks under the NACK edge than confirmed by hand (one per classifier)")
 	c.Floor(4)
+}
+
+// C05-R9 (also listed as C03-R3b): the forced EDS push after a delta CDS answer is unconditional. forceEDSPush exists
+// because Envoy re-warms every cluster it receives and waits for endpoints; on a reconnect EDS and CDS requests arrive
+// back to back, so "the last EDS answer was not acknowledged yet" is the normal case, not a reason to skip. In
+// forceEDSPush every path to a return passes pushDeltaXds, except under the "EDS is not watched" edge.
+func c05r9(c *Ctx) {
+	p := c.P
+	fn := p.Func(pkgXds, "DiscoveryServer", "forceEDSPush")
+	push := p.FuncObj(pkgXds, "DiscoveryServer", "pushDeltaXds")
+	var notWatched []Edge
+	for _, i := range allIfs(fn) {
+		if x, eq, ok := nilCmp(i.Cond); ok {
+			if call, isCall := x.(*ssa.Call); isCall {
+				if o := calleeObj(call); o != nil && o.Name() == "GetWatchedResource" {
+					idx := 1
+					if eq {
+						idx = 0
+					}
+					notWatched = append(notWatched, Edge{i.Block(), idx})
+				}
+			}
+		}
+	}
+	c.Check("forceEDSPush tests whether EDS is watched", fn.Pos(), len(notWatched) == 1, "expected one nil test of GetWatchedResource(EDS) in forceEDSPush")
+	bad, found := pathAvoidingE(fn.Blocks[0], nil, deepMust(func(ins ssa.Instruction) bool { return isCallTo(ins, push) }, 1), isReturn, notWatched, nil)
+	pos := fn.Pos()
+	if bad != nil {
+		pos = bad.Pos()
+	}
+	c.Check("forceEDSPush pushes EDS whenever EDS is watched", pos, !found,
+		"forceEDSPush can return without pushing although the proxy watches EDS: after a delta CDS answer Envoy re-warms the clusters it received and waits for their endpoints; on a reconnect the EDS and CDS requests are pipelined, so a skip that depends on the state of the previous EDS answer (not yet acknowledged, nonce in flight) hits exactly the case the forced push exists for, and the changed clusters stay warming")
+	c.Floor(2)
 }
